@@ -526,3 +526,44 @@ Proof.
   - exfalso. vm_compute in Hk. injection Hk as <-. vm_compute in Hcid. discriminate.
   - exfalso. vm_compute in Hk. destruct i; discriminate.
 Qed.
+
+(* ---------- liveness, one mechanism stated: the client's staleness watchdog ----------
+   "provided some working proxy eventually becomes available" needs the client to GIVE UP a carrier that has gone
+   silent without closing anything (proxy frozen, its WebSocket to the bridge black-holed): the only detector is
+   WebRTCPeer.checkForStaleness (client/lib/webrtc.go), modelled over an explicit clock in Model/Staleness.v. What is
+   proved is the clause at the granularity the rig's scenarios silent-at-open / silent-replacement exercise: the watchdog
+   runs from the moment the data channel opens, so a proxy that is silent from its very first byte - NOTHING is ever
+   received through it - is closed by the first watchdog turn later than [timeout] after the opening; in general later
+   than [timeout] after the last message. The rest of the liveness chain (Peers collecting a replacement,
+   RedialPacketConn dialling it, KCP retransmitting, kcp-go/smux keeping a session whose bridge-side stream was closed
+   after writing until its bytes are acknowledged) stays with the rig (answer-then-close scenarios included). This small
+   machine is not compared with the code by extraction (where the watchdog is started is decided inside connect() and
+   pion's callbacks); its tie is the rig. *)
+From Snow Require Import Model.Staleness Proofs.StalenessProofs.
+
+Theorem C01_silent_peer_is_closed : forall timeout t0 T pre t post,
+  t0 <= T -> recv_by T pre = true -> T + timeout < t ->
+  w_closed (w_run (w_step timeout) (WOpen t0 :: pre ++ [WTick t] ++ post)) = true.
+Proof. exact silent_peer_closed. Qed.
+
+(* ... not because everything gets closed: while each watchdog turn finds the last message (or the opening) at most
+   [timeout] old, the peer stays *)
+Theorem C01_fresh_peer_is_kept : forall timeout t0 evs,
+  fresh timeout t0 evs = true -> w_closed (w_run (w_step timeout) (WOpen t0 :: evs)) = false.
+Proof. exact fresh_peer_not_closed. Qed.
+
+(* the watchdog started by the first received message instead (seeded change C01-m7): a proxy silent from the start
+   is never given up, however long one waits *)
+Theorem C01_watchdog_started_by_first_message_refuted : forall timeout t0 ticks,
+  w_closed (w_run (w_step_lazy timeout) (WOpen t0 :: map WTick ticks)) = false.
+Proof. exact lazy_watchdog_refuted. Qed.
+
+(* non-vacuity: timeout 20 s, watchdog turns every second (clock in ms). Opened at 1000 and never a message: closed by
+   the turn at 22000, not before; one message at 5000: kept at 25000, closed at 26000. *)
+Example C01_silent_peer_example :
+  recv_by 1000 [WTick 2000; WTick 21000] = true /\
+  w_closed (w_run (w_step 20000) (WOpen 1000 :: [WTick 2000; WTick 21000] ++ [WTick 22000] ++ [])) = true /\
+  w_closed (w_run (w_step 20000) [WOpen 1000; WTick 2000; WTick 21000]) = false /\
+  fresh 20000 1000 [WTick 2000; WRecv 5000; WTick 25000] = true /\
+  w_closed (w_run (w_step 20000) [WOpen 1000; WTick 2000; WRecv 5000; WTick 25000; WTick 26000]) = true.
+Proof. vm_compute. repeat split. Qed.
